@@ -23,7 +23,10 @@ func verifPlan(n, slen int) (*migrate.Plan, [][]string) {
 		txt := func(k int) string {
 			s := verifString(fmt.Sprintf("r%d_%d", i, k), slen)
 			for j := 0; j < len(s); j++ {
-				verifAssume(s[j] >= 'a' && s[j] <= 'z' || s[j] >= '0' && s[j] <= '9' || s[j] == ' ' || s[j] == '_' || s[j] == ',')
+				// one solver constraint per byte (no fork per alternative)
+				ok := verifOr(verifAnd(s[j] >= 'a', s[j] <= 'z'), verifAnd(s[j] >= '0', s[j] <= '9'))
+				ok = verifOr(ok, verifOr(s[j] == ' ', verifOr(s[j] == '_', s[j] == ',')))
+				verifAssume(ok)
 			}
 			return "DOWN " + s + fmt.Sprint(i, k)
 		}
